@@ -13,6 +13,8 @@ CONSTANTS
   MaxSpur = 1
   Endings = {}
   SeiSet = {"never"}
+  ReR = {2}
+  ReM = {10}
   RecordSched = FALSE
   Dev = {}
 VIEW view
